@@ -171,7 +171,7 @@ def extract_concat(tree):
     return facts
 
 
-def gen_sd(f):
+def lean_sd_text(f):
     order = ["uid", "desc", "res", "iStart", "iStop", "sStart", "sStop"]
     return "\n".join(
         [
@@ -283,7 +283,7 @@ def extract_cons(tree):
     return {"list_summands": term, "list_summands_src": ast.unparse(ret), "list_summands_at": f"consolidators.py:{fn.lineno}", "chunk_dim_bad": bad, "chunk_dim_bad_at": f"consolidators.py:{bad_at}"}
 
 
-def gen_cons(f):
+def lean_cons_text(f):
     return "\n".join(
         [
             "-- GENERATED by harness/props/C36.py from src/bluesky/consolidators.py -- do not edit.",
@@ -309,6 +309,460 @@ def extract(ctx):
     t2 = ast.parse((C.SRC / "consolidators.py").read_text())
     f1 = extract_concat(t1)
     f2 = extract_cons(t2)
-    C.write_if_changed(GEN_SD, gen_sd(f1))
-    C.write_if_changed(GEN_CONS, gen_cons(f2))
+    C.write_if_changed(GEN_SD, lean_sd_text(f1))
+    C.write_if_changed(GEN_CONS, lean_cons_text(f2))
     return {"concatenate_stream_datums": f1, "consolidators": f2}
+
+
+# ----------------------------------------------------------------------------- running the real code
+
+
+def _doc(d):
+    return {"uid": f"u{d['uid']}", "descriptor": f"d{d['desc']}", "stream_resource": f"r{d['res']}", "indices": {"start": d["i"][0], "stop": d["i"][1]}, "seq_nums": {"start": d["s"][0], "stop": d["s"][1]}}
+
+
+def _row(d):
+    return [d["uid"], d["desc"], d["res"], d["i"][0], d["i"][1], d["s"][0], d["s"][1]]
+
+
+def run_concat_docs(docs):
+    from bluesky.callbacks.tiled_writer import concatenate_stream_datums
+
+    try:
+        r = concatenate_stream_datums(*[_doc(d) for d in docs])
+    except Exception as e:  # noqa: BLE001
+        return {"err": type(e).__name__}
+    try:
+        return {"ok": [int(r["uid"][1:]), int(r["descriptor"][1:]), int(r["stream_resource"][1:]), r["indices"]["start"], r["indices"]["stop"], r["seq_nums"]["start"], r["seq_nums"]["stop"]]}
+    except Exception as e:  # noqa: BLE001
+        return {"err": "malformed-result:" + type(e).__name__}
+
+
+def run_concat(case):
+    obs = run_concat_docs(case["docs"])
+    obs["perms"] = [run_concat_docs([case["docs"][k] for k in p]) for p in case.get("perms", [])]
+    return obs
+
+
+_CLS_CACHE = {}
+
+
+def _cons_class(join, join_chunks):
+    from bluesky.consolidators import ConsolidatorBase
+
+    key = (join, join_chunks)
+    if key not in _CLS_CACHE:
+        _CLS_CACHE[key] = type(f"Cons_{join}_{join_chunks}", (ConsolidatorBase,), {"join_method": join, "join_chunks": join_chunks})
+    return _CLS_CACHE[key]
+
+
+def _snap(c):
+    try:
+        sh = [int(x) for x in c.shape]
+    except Exception as e:  # noqa: BLE001
+        sh = {"err": type(e).__name__}
+    try:
+        ch = [[int(x) for x in t] for t in c.chunks]
+    except Exception as e:  # noqa: BLE001
+        ch = {"err": type(e).__name__}
+    return {"shape": sh, "chunks": ch, "num_rows": int(c._num_rows)}
+
+
+def run_cons(case):
+    params = {}
+    for k_case, k_par in (("multiplier", "multiplier"), ("paramJoin", "join_method"), ("paramJoinChunks", "join_chunks")):
+        if case.get(k_case) is not None:
+            params[k_par] = case[k_case]
+    if case.get("chunkShape") is not None:
+        params["chunk_shape"] = tuple(case["chunkShape"])
+    desc = {"data_keys": {"k": {"shape": list(case["shape"]), "dtype": "array", "dtype_numpy": "<f8", "external": "STREAM:"}}, "uid": "d0"}
+    sres = {"data_key": "k", "mimetype": "application/octet-stream", "uri": "file://localhost/x", "parameters": params, "uid": "r0"}
+    try:
+        c = _cons_class(case["classJoin"], case["classJoinChunks"])(sres, desc)
+    except Exception as e:  # noqa: BLE001
+        return {"ctor": type(e).__name__}
+    obs = {"ctor": "ok", "datum_shape": [int(x) for x in c.datum_shape], "chunk_shape": [int(x) for x in c.chunk_shape], "join": c.join_method, "join_chunks": bool(c.join_chunks), "snaps": [_snap(c)]}
+    for d in case["docs"]:
+        c.consume_stream_datum(_doc(d))
+        obs["snaps"].append(_snap(c))
+    obs["map"] = sorted([int(k), int(v)] for k, v in c._seqnums_to_indices_map.items())
+    return obs
+
+
+_LS = None
+
+
+def real_list_summands():
+    """the nested function object of ConsolidatorBase.chunks, rebuilt from the imported code object"""
+    global _LS
+    if _LS is None:
+        import types
+
+        from bluesky.consolidators import ConsolidatorBase
+
+        code = next(k for k in ConsolidatorBase.chunks.fget.__code__.co_consts if isinstance(k, types.CodeType) and k.co_name == "list_summands")
+        _LS = types.FunctionType(code, {"tuple": tuple})
+    return _LS
+
+
+def run_ls(case):
+    try:
+        return {"out": [int(x) for x in real_list_summands()(case["A"], case["b"], case["r"])]}
+    except Exception as e:  # noqa: BLE001
+        return {"err": type(e).__name__}
+
+
+# ----------------------------------------------------------------------------- the property, stated directly
+
+
+def _chains(rs):
+    return all(a[1] == b[0] for a, b in zip(rs, rs[1:]))
+
+
+def contiguous_set(docs):
+    """SOME arrangement of the index ranges is a chain (ranges well-formed: start <= stop).
+    In a chain of well-formed ranges starts are non-decreasing and, among equal starts, the empty ranges come
+    first, so sorting by (start, stop) finds a chain whenever one exists."""
+    rs = sorted(tuple(d["i"]) for d in docs)
+    ans = _chains(rs)
+    if len(rs) <= 5:  # cross-check of the harness's own shortcut by brute force
+        brute = any(_chains(p) for p in itertools.permutations(rs))
+        assert brute == ans, ("contiguous_set shortcut wrong", rs)
+    return ans
+
+
+def tied_empty(docs):
+    starts = [d["i"][0] for d in docs]
+    return any(d["i"][0] == d["i"][1] and starts.count(d["i"][0]) > 1 for d in docs)
+
+
+def oracle_concat(case, obs):
+    docs = case["docs"]
+    bad = []
+    if any(d["i"][0] > d["i"][1] for d in docs):
+        return bad  # malformed ranges: outside the property, correspondence only
+    tie = tied_empty(docs)
+    acceptable = bool(docs) and len({d["desc"] for d in docs}) == 1 and len({d["res"] for d in docs}) == 1 and contiguous_set(docs)
+    rng_txt = [tuple(d["i"]) for d in docs]
+    outcomes = [{k: v for k, v in obs.items() if k != "perms"}] + obs.get("perms", [])
+    orders = [list(range(len(docs)))] + case.get("perms", [])
+    for o, order in zip(outcomes, orders):
+        accepted = "ok" in o
+        if accepted != acceptable:
+            if tie and acceptable:
+                sig = "concat:zero-width-range-tied-start:acceptance-depends-on-order"
+            else:
+                sig = "concat:rejects-contiguous-set" if acceptable else "concat:accepts-non-contiguous-set"
+            bad.append((sig, f"index ranges {[rng_txt[k] for k in order]} (argument order as listed): implementation {'accepts' if accepted else 'raises ' + o.get('err', '?')}, the set is {'contiguous for one descriptor/resource' if acceptable else 'NOT a contiguous set for one descriptor/resource'}"))
+            continue
+        if accepted:
+            uid, de, re_, i0, i1, s0, s1 = o["ok"]
+            if (i0, i1) != (min(d["i"][0] for d in docs), max(d["i"][1] for d in docs)) or i1 - i0 != sum(d["i"][1] - d["i"][0] for d in docs):
+                bad.append(("concat:wrong-hull:indices", f"index ranges {rng_txt}: returned indices [{i0},{i1})"))
+            if de != docs[0]["desc"] or re_ != docs[0]["res"] or uid not in {d["uid"] for d in docs}:
+                bad.append(("concat:wrong-ids", f"returned uid/descriptor/resource {uid}/{de}/{re_} not taken from the inputs"))
+            mono = all((a["s"][0] <= b["s"][0] and a["s"][1] <= b["s"][1]) for a in docs for b in docs if a["i"][0] <= b["i"][0])
+            if mono and (s0, s1) != (min(d["s"][0] for d in docs), max(d["s"][1] for d in docs)):
+                bad.append(("concat:wrong-hull:seq_nums", f"seq ranges {[tuple(d['s']) for d in docs]}: returned seq_nums [{s0},{s1})"))
+    if not bad and len({json.dumps(o, sort_keys=True) for o in outcomes if "ok" in o}) > 1 and not tie:
+        bad.append(("concat:result-depends-on-order", f"index ranges {rng_txt}: different documents for different argument orders"))
+    return bad
+
+
+def oracle_cons(case, obs):
+    bad = []
+    if obs["ctor"] != "ok":
+        return bad
+    cls = f"{obs['join']}:join_chunks={obs['join_chunks']}"
+    total = 0
+    for n, snap in enumerate(obs["snaps"]):
+        if n > 0:
+            d = case["docs"][n - 1]
+            total += d["i"][1] - d["i"][0]
+        if snap["num_rows"] != total:
+            bad.append(("consume:num_rows", f"after {n} documents num_rows={snap['num_rows']}, sum of index widths={total}"))
+        sh, ch = snap["shape"], snap["chunks"]
+        if isinstance(sh, dict):
+            bad.append(("shape:raises-" + sh["err"], f"shape raises {sh['err']} ({cls}, datum_shape {obs['datum_shape']})"))
+            continue
+        if isinstance(ch, dict):
+            if ch["err"] == "ValueError" and len(obs["chunk_shape"]) > len(sh):
+                continue  # the documented rejection: chunk_shape longer than shape
+            if ch["err"] == "IndexError" and obs["join"] == "concat" and not obs["join_chunks"] and obs["datum_shape"] == [] and obs["chunk_shape"]:
+                sig = "chunks:IndexError:concat-without-join_chunks:scalar-datum"
+            else:
+                sig = f"chunks:raises-{ch['err']}:{cls}"
+            bad.append((sig, f"chunks raises {ch['err']} although shape is {tuple(sh)} (datum_shape {tuple(obs['datum_shape'])}, chunk_shape {tuple(obs['chunk_shape'])}, {cls}, num_rows {snap['num_rows']})"))
+            continue
+        ok = len(ch) == len(sh) and all(sum(c) == s for c, s in zip(ch, sh)) and all(c == [0] or (c and all(x > 0 for x in c)) for c in ch)
+        if not ok:
+            dim = next((k for k, (c, s) in enumerate(zip(ch, sh)) if sum(c) != s), "len")
+            bad.append((f"chunks:not-a-chunking-of-shape:{cls}:dim{'0' if dim == 0 else 'N' if dim != 'len' else '-count'}", f"shape {tuple(sh)} but chunks {ch} (datum_shape {tuple(obs['datum_shape'])}, chunk_shape {tuple(obs['chunk_shape'])}, {cls}, num_rows {snap['num_rows']})"))
+    # every consumed seq_num maps to its row index (documents with pairwise disjoint seq ranges)
+    docs = case["docs"]
+    cover = [set(range(d["s"][0], d["s"][0] + max(0, min(d["s"][1] - d["s"][0], d["i"][1] - d["i"][0])))) for d in docs]
+    disjoint = all(not (cover[a] & cover[b]) for a in range(len(docs)) for b in range(a + 1, len(docs)))
+    m = dict(map(tuple, obs["map"]))
+    if disjoint:
+        for d, cv in zip(docs, cover):
+            for s in cv:
+                if m.get(s) != d["i"][0] + (s - d["s"][0]):
+                    bad.append(("consume:seq_num-map", f"seq_num {s} of document indices={d['i']} seq_nums={d['s']} mapped to {m.get(s)}, its row is {d['i'][0] + (s - d['s'][0])}"))
+                    break
+        if set(m) != set().union(*cover) if cover else m:
+            bad.append(("consume:seq_num-map:extra-keys", f"map has keys {sorted(set(m) - (set().union(*cover) if cover else set()))} that no document paired with a row"))
+    return bad
+
+
+def oracle_ls(case, obs):
+    if case["b"] <= 0:
+        return []
+    if "err" in obs:
+        return [("list_summands:raises-" + obs["err"], f"list_summands({case['A']}, {case['b']}, {case['r']}) raises {obs['err']}")]
+    out = obs["out"]
+    if sum(out) != case["A"] * case["r"] or not (out == [0] or (out and all(0 < x <= case["b"] for x in out))):
+        return [("list_summands:wrong-sum", f"list_summands({case['A']}, {case['b']}, {case['r']}) = {out}")]
+    return []
+
+
+# ----------------------------------------------------------------------------- case generation
+
+WIDTHS = [0, 1, 1, 1, 2, 2, 3, 5]
+
+
+def _chain(rng, n, start=None, zero_ok=True):
+    x = rng.choice([0, 0, 1, 3, 10]) if start is None else start
+    docs = []
+    for k in range(n):
+        w = rng.choice(WIDTHS if zero_ok else WIDTHS[1:])
+        docs.append({"uid": k + 1, "desc": 0, "res": 0, "i": [x, x + w], "s": [x + 1, x + w + 1]})
+        x += w
+    return docs
+
+
+def _perms(rng, n):
+    if n < 2:
+        return []
+    ps = [list(reversed(range(n)))]
+    p = list(range(n))
+    rng.shuffle(p)
+    ps.append(p)
+    return ps
+
+
+def gen_concat(rng):
+    n = rng.choice([0, 1, 1, 2, 2, 2, 3, 3, 4, 5, 6])
+    docs = _chain(rng, n, zero_ok=rng.random() < 0.35)
+    r = rng.random()
+    if docs and r < 0.10:
+        rng.choice(docs)["desc"] = 1
+    elif docs and r < 0.20:
+        rng.choice(docs)["res"] = 1
+    elif docs and r < 0.35:
+        d = rng.choice(docs)
+        k = rng.choice([-1, 1, 2])
+        which = rng.choice([0, 1])
+        d["i"][which] = max(0, d["i"][which] + k)
+    elif docs and r < 0.40:
+        d = dict(rng.choice(docs))
+        d = {**d, "uid": len(docs) + 1, "i": list(d["i"]), "s": list(d["s"])}
+        docs.append(d)
+    elif docs and r < 0.43:
+        d = rng.choice(docs)
+        d["i"] = [d["i"][1] + 1, d["i"][0]]
+    elif docs and r < 0.53:
+        d = rng.choice(docs)
+        d["s"] = [rng.randint(0, 12), rng.randint(0, 12)]
+    if rng.random() < 0.7:
+        rng.shuffle(docs)
+    return {"kind": "concat", "docs": docs, "perms": _perms(rng, len(docs))}
+
+
+def exhaustive_concat(lim, maxlen):
+    ranges = [(a, b) for a in range(lim + 1) for b in range(a, lim + 1)]
+    for n in range(0, maxlen + 1):
+        for rs in itertools.product(ranges, repeat=n):
+            docs = [{"uid": k + 1, "desc": 0, "res": 0, "i": list(r), "s": [r[0] + 1, r[1] + 1]} for k, r in enumerate(rs)]
+            yield {"kind": "concat", "docs": docs, "perms": [list(reversed(range(n)))] if n > 1 else []}
+    for dd, rr in ((1, 0), (0, 1), (1, 1)):
+        for rs in ([(0, 1), (1, 2)], [(1, 2), (0, 1)], [(0, 2)], [(0, 1), (1, 1), (1, 2)]):
+            docs = [{"uid": k + 1, "desc": dd if k == len(rs) - 1 else 0, "res": rr if k == 0 else 0, "i": list(r), "s": [r[0] + 1, r[1] + 1]} for k, r in enumerate(rs)]
+            yield {"kind": "concat", "docs": docs, "perms": []}
+
+
+def gen_cons_case(rng):
+    nd = rng.choice([0, 1, 1, 2, 2, 3, 3, 4])
+    shape = [rng.choice([0, 1, 1, 2, 3, 5, 7]) for _ in range(nd)]
+    if shape and rng.random() < 0.03:
+        shape[rng.randrange(nd)] = None
+    r = rng.random()
+    if r < 0.2:
+        chunk = None
+    else:
+        nc = rng.choice([0, 1, 1, 2, 2, 3, nd, nd + 1, nd + 2])
+        chunk = [rng.choice([1, 1, 2, 3, 4, 10]) for _ in range(nc)]
+        if chunk and rng.random() < 0.04:
+            chunk[rng.randrange(nc)] = rng.choice([0, -1])
+    docs = _chain(rng, rng.choice([0, 1, 2, 3, 5]), start=rng.choice([0, 0, 2]))
+    r = rng.random()
+    for d in docs:
+        if r < 0.15:  # fewer seq_nums than rows (skips)
+            d["s"][1] = max(d["s"][0], d["s"][1] - rng.choice([1, 2]))
+        elif r < 0.25:  # overlapping / repeated seq_nums
+            d["s"] = [rng.randint(0, 6), rng.randint(0, 9)]
+            d["s"].sort()
+        elif r < 0.30:  # more seq_nums than rows
+            d["s"][1] += rng.choice([1, 3])
+    return {
+        "kind": "cons",
+        "classJoin": rng.choice(["stack", "concat"]),
+        "classJoinChunks": rng.random() < 0.5,
+        "shape": shape,
+        "multiplier": rng.choice([None, None, None, None, 0, 1, 2, 3, 7]),
+        "chunkShape": chunk,
+        "paramJoin": rng.choice([None, None, None, "stack", "concat"]),
+        "paramJoinChunks": rng.choice([None, None, True, False]),
+        "docs": docs,
+    }
+
+
+def exhaustive_cons():
+    docs = [{"uid": 1, "desc": 0, "res": 0, "i": [0, 2], "s": [1, 3]}, {"uid": 2, "desc": 0, "res": 0, "i": [2, 5], "s": [3, 6]}]
+    for join, jc, shape, mult, chunk in itertools.product(["stack", "concat"], [True, False], [[], [1], [3], [1, 4], [2, 4], [6, 2, 5]], [None, 3], [None, [], [2], [4], [2, 3], [1, 2, 2], [2, 2, 2, 2]]):
+        yield {"kind": "cons", "classJoin": join, "classJoinChunks": jc, "shape": shape, "multiplier": mult, "chunkShape": chunk, "paramJoin": None, "paramJoinChunks": None, "docs": docs}
+
+
+def gen_ls(rng):
+    return {"kind": "ls", "A": rng.choice([0, 1, rng.randint(0, 40), rng.randint(0, 1000)]), "b": rng.choice([1, 2, 3, rng.randint(1, 12), rng.randint(1, 200)]), "r": rng.choice([0, 1, 1, 2, 3, rng.randint(0, 6)])}
+
+
+def _cases(ctx):
+    corpus = C.VERIF / "corpus" / "C36"
+    if corpus.exists():
+        for f in sorted(corpus.glob("*.json")):
+            yield json.loads(f.read_text())["case"]
+    big = ctx.tier == "thorough" or ctx.deep
+    yield from exhaustive_concat(3, 3) if not big else exhaustive_concat(3, 4)
+    yield from exhaustive_cons()
+    for A in range(0, 13 if not big else 30):
+        for b in range(1, 6 if not big else 9):
+            for r in range(0, 4):
+                yield {"kind": "ls", "A": A, "b": b, "r": r}
+    for _ in range(ctx.budget(1500, 40000)):
+        yield gen_concat(ctx.rng)
+    for _ in range(ctx.budget(1000, 30000)):
+        yield gen_cons_case(ctx.rng)
+    for _ in range(ctx.budget(300, 5000)):
+        yield gen_ls(ctx.rng)
+
+
+def lean_line(case):
+    if case["kind"] == "concat":
+        return [json.dumps({"k": "concat", "docs": [_row(d) for d in case["docs"]]})] + [json.dumps({"k": "concat", "docs": [_row(case["docs"][k]) for k in p]}) for p in case.get("perms", [])]
+    if case["kind"] == "ls":
+        return [json.dumps({"k": "ls", "A": case["A"], "b": case["b"], "r": case["r"]})]
+    req = {k: case[k] for k in ("classJoin", "classJoinChunks", "shape", "multiplier", "chunkShape", "paramJoin", "paramJoinChunks")}
+    req.update({"k": "cons", "docs": [_row(d) for d in case["docs"]]})
+    return [json.dumps(req)]
+
+
+def compare(case, obs, replies):
+    ms = [json.loads(r) for r in replies]
+    if case["kind"] == "concat":
+        want = [{k: v for k, v in obs.items() if k != "perms"}] + obs["perms"]
+        return [] if ms == want else [{"model": ms, "impl": want}]
+    if case["kind"] == "ls":
+        if case["b"] <= 0:
+            return []
+        return [] if ms[0] == obs else [{"model": ms[0], "impl": obs}]
+    return [] if ms[0] == obs else [{"model": ms[0], "impl": obs}]
+
+
+def malformed(case):
+    """inputs the Nat model does not speak about: negative numbers, inverted ranges for consolidators"""
+    if case["kind"] == "cons":
+        return any(d["i"][0] > d["i"][1] or d["s"][0] > d["s"][1] for d in case["docs"])
+    return False
+
+
+def _nontrivial(case, obs):
+    if case["kind"] == "concat":
+        return len(case["docs"]) > 1
+    if case["kind"] == "cons":
+        return obs["ctor"] != "ok" or bool(case["docs"]) and bool(obs["chunk_shape"])
+    return case["A"] % max(case["b"], 1) != 0 or case["r"] != 1
+
+
+def run(ctx, model=True):
+    res = C.Result(
+        rule="cases = corpus + exhaustive lists of <=3 (thorough: 4) index ranges over [0,3] (incl. zero-width, duplicates, overlaps) each also in reversed order "
+        "+ exhaustive join/join_chunks/shape/multiplier/chunk_shape table + exhaustive list_summands(A<=12,b<=5,r<=3) + random mostly-contiguous datum sets "
+        "(shuffled, with descriptor/resource/gap/overlap/duplicate/inverted/seq faults; every set also run reversed and shuffled) + random constructor "
+        "arguments x datum lists (skips, repeated seq_nums) on real ConsolidatorBase subclasses + random list_summands calls on the real nested function; "
+        "non-trivial = more than one document / a constructor rejection or chunked consumed data / a remainder or repeat != 1"
+    )
+    cases, obss, lines, spans = [], [], [], []
+    for case in _cases(ctx):
+        kind = case["kind"]
+        obs = run_concat(case) if kind == "concat" else run_cons(case) if kind == "cons" else run_ls(case)
+        cases.append(case)
+        obss.append(obs)
+        res.seen(case, _nontrivial(case, obs))
+        res.count("kind:" + kind)
+        if kind == "concat":
+            res.count("concat:" + ("accepted" if "ok" in obs else obs["err"]))
+            res.count("concat:evaluations", 1 + len(obs["perms"]))
+            if tied_empty(case["docs"]):
+                res.count("concat:with-tied-zero-width-range")
+            bad = oracle_concat(case, obs)
+        elif kind == "cons":
+            res.count("cons:ctor:" + obs["ctor"])
+            if obs["ctor"] == "ok":
+                res.count(f"cons:{obs['join']}:join_chunks={obs['join_chunks']}")
+                last = obs["snaps"][-1]["chunks"]
+                res.count("cons:chunks:" + (last["err"] if isinstance(last, dict) else "ok"))
+            bad = oracle_cons(case, obs)
+        else:
+            bad = oracle_ls(case, obs)
+        for sig, what in bad:
+            res.violations.append(C.Violation(sig, what, case))
+        if model:
+            ls = lean_line(case)
+            spans.append((len(lines), len(ls)))
+            lines += ls
+    if model:
+        replies = C.lean_batch(DRIVER, lines)
+        for case, obs, (a, n) in zip(cases, obss, spans):
+            for d in compare(case, obs, replies[a : a + n]):
+                res.disagreements.append({"case": case, **d})
+        picks = [next((k for k, c in enumerate(cases) if c["kind"] == "concat" and len(c["docs"]) == 3 and "ok" in obss[k]), 0), next((k for k, c in enumerate(cases) if c["kind"] == "cons" and c["docs"] and obss[k]["ctor"] == "ok" and c["chunkShape"]), 0), len(cases) - 1]
+        for k in picks:
+            a, n = spans[k]
+            res.samples.append({"case": cases[k], "impl": obss[k], "model": [json.loads(r) for r in replies[a : a + n]]})
+    else:
+        res.samples.append({"case": cases[-1], "impl": obss[-1]})
+    # one (smallest) case per violated signature
+    best = {}
+    for v in res.violations:
+        size = len(json.dumps(v.case))
+        if v.sig not in best or size < best[v.sig][0]:
+            best[v.sig] = (size, v)
+    res.violations = [v for _, v in best.values()]
+    return res
+
+
+def run_impl_only(ctx):
+    return run(ctx, model=False)
+
+
+def replay(ctx, data):
+    res = C.Result()
+    case = data.get("case")
+    if not case:
+        return res
+    kind = case["kind"]
+    obs = run_concat(case) if kind == "concat" else run_cons(case) if kind == "cons" else run_ls(case)
+    bad = oracle_concat(case, obs) if kind == "concat" else oracle_cons(case, obs) if kind == "cons" else oracle_ls(case, obs)
+    for sig, what in bad:
+        res.violations.append(C.Violation(sig, what, case))
+    return res
